@@ -12,7 +12,6 @@ package evmattest
 import (
 	"bytes"
 	"context"
-	"crypto/ecdsa"
 	"crypto/sha256"
 	"encoding/hex"
 	"encoding/json"
@@ -115,17 +114,23 @@ type world struct {
 	base     [3]sdk.Context // prepared worlds: 0 = plain, 1 = compass sc2 uploaded and hand-over pending, 2 = snapshot s2 live and re-published once
 	idBase   [3]uint64      // real message id = idBase + model id
 	reg      [3]*registry
+	prepErr  [3]string // why a prepared world is not available (histories that need it are reported as skipped)
 }
 
 // registry gives small integers to data / tx hashes / evidence identities
 type registry struct {
-	data map[string]int
-	hash map[string]int
-	txs  map[string]*ethtypes.Transaction // cache key (of,k,corr,n) -> signed tx: a remote transaction never changes
+	data  map[string]int
+	hash  map[string]int
+	calls map[string]callData // (of, k, corr) -> call data: a remote transaction never changes
+}
+
+type callData struct {
+	data   []byte
+	create bool
 }
 
 func newRegistry() *registry {
-	return &registry{data: map[string]int{}, hash: map[string]int{}, txs: map[string]*ethtypes.Transaction{}}
+	return &registry{data: map[string]int{}, hash: map[string]int{}, calls: map[string]callData{}}
 }
 
 func (g *registry) clone() *registry {
@@ -136,10 +141,20 @@ func (g *registry) clone() *registry {
 	for k, v := range g.hash {
 		n.hash[k] = v
 	}
-	for k, v := range g.txs {
-		n.txs[k] = v
+	for k, v := range g.calls {
+		n.calls[k] = v
 	}
 	return n
+}
+
+// usedHashes: every transaction built while a world was prepared was accepted there (the preparation panics otherwise)
+func (g *registry) usedHashes() []int {
+	out := []int{}
+	for _, v := range g.hash {
+		out = append(out, v)
+	}
+	sort.Ints(out)
+	return out
 }
 
 func (g *registry) did(b []byte) int {
@@ -232,7 +247,22 @@ func newWorld() *world {
 	w.base[0] = c0
 	w.reg[0] = newRegistry()
 	w.idBase[0] = w.probeNextID(c0) - 1
-	// world 1: the new compass really uploaded and attested, hand-over message pending
+	w.prepare(1, func() { w.prepareWorld1(ctx) })
+	w.prepare(2, func() { w.prepareWorld2(ctx) })
+	return w
+}
+
+func (w *world) prepare(i int, f func()) {
+	defer func() {
+		if r := recover(); r != nil {
+			w.prepErr[i] = fmt.Sprint(r)
+		}
+	}()
+	f()
+}
+
+// world 1: the new compass really uploaded and attested, hand-over message pending
+func (w *world) prepareWorld1(ctx sdk.Context) {
 	c1, _ := ctx.CacheContext()
 	r := w.newRun(c1, newRegistry(), w.idBase[0])
 	if res, _ := r.step(drv.Step{Act: "Enqueue", Args: json.RawMessage(`{"kind":"usc"}`)}); res != "ok" {
@@ -245,17 +275,24 @@ func newWorld() *world {
 		}
 	}
 	r.step(drv.Step{Act: "EndBlock", Args: json.RawMessage(`{}`)})
-	o := r.observe()
-	q := o["queue"].([]any)
-	if len(q) != 1 || q[0].(map[string]any)["kind"] != "handover" || q[0].(map[string]any)["id"] != 2 {
-		panic(fmt.Sprintf("world 1 not in hand-over state: %v", o))
+	found := false
+	for _, q := range r.observe()["queue"].([]any) {
+		if q.(map[string]any)["kind"] == "handover" && q.(map[string]any)["id"] == 2 {
+			found = true
+		}
+	}
+	if !found {
+		panic("world 1: no hand-over message after the compass upload")
 	}
 	w.base[1] = r.ctx
 	w.reg[1] = r.reg
 	w.idBase[1] = w.idBase[0] + 1 // model: the pending hand-over message has id 1
-	// world 2: s2 went live (message 0 of the model) and was published again (message 1); both transactions are used up
+}
+
+// world 2: s2 went live (message 0 of the model) and was published again (message 1); both transactions are used up
+func (w *world) prepareWorld2(ctx sdk.Context) {
 	c2, _ := ctx.CacheContext()
-	r = w.newRun(c2, newRegistry(), w.idBase[0])
+	r := w.newRun(c2, newRegistry(), w.idBase[0])
 	for _, m := range []int{1, 2} {
 		if res, _ := r.step(drv.Step{Act: "Enqueue", Args: json.RawMessage(`{"kind":"valset"}`)}); res != "ok" {
 			panic("world 2: enqueue valset " + res)
@@ -271,14 +308,12 @@ func newWorld() *world {
 		}
 		r.step(drv.Step{Act: "EndBlock", Args: json.RawMessage(`{}`)})
 	}
-	o = r.observe()
-	if len(o["queue"].([]any)) != 0 || o["live2"] != 2 || len(o["processed"].([]int)) != 2 {
-		panic(fmt.Sprintf("world 2 not in the expected state: %v", o))
+	if o := r.observe(); o["live2"] != 2 {
+		panic(fmt.Sprintf("world 2: snapshot not live twice: %v", o))
 	}
 	w.base[2] = r.ctx
 	w.reg[2] = r.reg
 	w.idBase[2] = w.idBase[0] + 1
-	return w
 }
 
 // probeNextID enqueues a logic call on a throw-away branch to learn the next message id
@@ -643,41 +678,31 @@ func (r *run) refEncode(m ct.QueuedSignedMessageI, k int, corr string) ([]byte, 
 	return data, nil
 }
 
-func (r *run) relayerKey(m *et.Message) *ecdsa.PrivateKey {
-	for _, v := range r.w.e.Vals {
-		if strings.EqualFold(v.EthAddr.Hex(), m.AssigneeRemoteAddress) {
-			return v.EthKey
-		}
-	}
-	return r.w.e.Vals[0].EthKey
-}
-
-// buildTx returns the remote transaction (of, k, corr, n); once built it never changes
+// buildTx returns the remote transaction (of, k, corr, n).  The call data of (of, k, corr) is fixed when it is first
+// built (a remote transaction never changes); n is the nonce, i.e. another transaction with the same data.
 func (r *run) buildTx(a args) (*ethtypes.Transaction, error) {
-	key := fmt.Sprintf("%d/%d/%s/%d", r.idBase+uint64(a.Of), a.K, a.Corr, a.N)
-	if tx, ok := r.reg.txs[key]; ok {
-		return tx, nil
+	real := r.idBase + uint64(a.Of)
+	key := fmt.Sprintf("%d/%d/%s", real, a.K, a.Corr)
+	c, ok := r.reg.calls[key]
+	if !ok {
+		m := r.find(real)
+		if m == nil {
+			return nil, fmt.Errorf("message %d not in the queue and its transaction was never built", a.Of)
+		}
+		data, err := r.refEncode(m, a.K, a.Corr)
+		if err != nil {
+			return nil, err
+		}
+		c = callData{data: data, create: kindOf(r.evmMsg(m)) == "usc"}
+		r.reg.calls[key] = c
 	}
-	m := r.find(r.idBase + uint64(a.Of))
-	if m == nil {
-		return nil, fmt.Errorf("message %d not in the queue and its transaction was never built", a.Of)
-	}
-	data, err := r.refEncode(m, a.K, a.Corr)
-	if err != nil {
-		return nil, err
-	}
-	msg := r.evmMsg(m)
 	to := common.HexToAddress(compassAddr1)
-	inner := &ethtypes.DynamicFeeTx{ChainID: big.NewInt(chainID), Nonce: uint64(a.N), GasTipCap: big.NewInt(1), GasFeeCap: big.NewInt(100), Gas: 1_000_000, To: &to, Data: data}
-	if kindOf(msg) == "usc" {
+	inner := &ethtypes.DynamicFeeTx{ChainID: big.NewInt(chainID), Nonce: uint64(a.N), GasTipCap: big.NewInt(1), GasFeeCap: big.NewInt(100), Gas: 1_000_000, To: &to, Data: c.data}
+	if c.create {
 		inner.To = nil
 	}
-	tx, err := ethtypes.SignNewTx(r.relayerKey(msg), ethtypes.NewLondonSigner(big.NewInt(chainID)), inner)
-	if err != nil {
-		return nil, err
-	}
-	r.reg.txs[key] = tx
-	return tx, nil
+	// one fixed key signs every remote transaction: a transaction is identified by (call data, nonce)
+	return ethtypes.SignNewTx(r.w.e.Vals[0].EthKey, ethtypes.NewLondonSigner(big.NewInt(chainID)), inner)
 }
 
 var deployedTopic = crypto.Keccak256Hash([]byte("ContractDeployed(address,address,uint256)"))
@@ -956,7 +981,8 @@ func (r *run) step(s drv.Step) (res string, extra map[string]any) {
 		}
 		real := r.idBase + uint64(a.M)
 		// the relayer publishes where to look (transaction hash + the valset it used) or the error, once
-		if m := r.find(real); m != nil && m.GetPublicAccessData() == nil && m.GetErrorData() == nil {
+		// (keeper semantics: public access data can still be set after error data, error data only while both are unset)
+		if m := r.find(real); m != nil && m.GetPublicAccessData() == nil && (a.T == "tx" || m.GetErrorData() == nil) {
 			rel := e.Vals[0]
 			for _, x := range e.Vals {
 				if x.Val.String() == r.evmMsg(m).Assignee {
@@ -1039,10 +1065,17 @@ func TestDriveEvmAttest(t *testing.T) {
 			must(json.Unmarshal(steps[0].Args, &a))
 			wi = a.W
 		}
+		if w.prepErr[wi] != "" {
+			// the world could not be prepared with the code under test: reported, never silently dropped
+			c0, _ := w.base[0].CacheContext()
+			r0 := w.newRun(c0, w.reg[0].clone(), w.idBase[0])
+			em.Emit(map[string]any{"h": h.H, "i": 0, "act": "Init", "obs": r0.observe(), "w": wi, "s1": int(w.s1), "s2": int(w.s2), "shares": w.shares(c0), "used": []int{}, "prep": w.prepErr[wi]})
+			continue
+		}
 		cctx, _ := w.base[wi].CacheContext() // branch of the prepared world, never written back
 		r := w.newRun(cctx.WithBlockHeight(w.base[wi].BlockHeight()+1), w.reg[wi].clone(), w.idBase[wi])
 		r.height = r.ctx.BlockHeight()
-		em.Emit(map[string]any{"h": h.H, "i": 0, "act": "Init", "obs": r.observe(), "w": wi, "s1": int(w.s1), "s2": int(w.s2), "shares": w.shares(r.ctx)})
+		em.Emit(map[string]any{"h": h.H, "i": 0, "act": "Init", "obs": r.observe(), "w": wi, "s1": int(w.s1), "s2": int(w.s2), "shares": w.shares(r.ctx), "used": r.reg.usedHashes(), "prep": ""})
 		for i, s := range steps {
 			if s.Act == "Start" {
 				em.Emit(map[string]any{"h": h.H, "i": i + 1, "act": "Start", "args": json.RawMessage(s.Args), "res": "start", "err": "", "obs": r.observe()})
